@@ -1,9 +1,12 @@
 //! fv — conformance / exploration harness for caio/foca (see /verif/DESIGN.md)
+mod c01;
+mod cluster;
 mod codec;
 mod handler;
 mod id;
 mod node;
 mod rnd;
+mod sim;
 
 use std::collections::HashMap;
 
@@ -64,6 +67,26 @@ fn main() {
                 bigincs: !flag(&kv, "nobigincs"),
             };
             rnd::run(&opts, &mut tw);
+        }
+        "c02" | "c03" | "c04" | "c05" | "c18" => {
+            tw.lite = !flag(&kv, "full");
+            let th = flag(&kv, "thorough");
+            let cov = match cmd.as_str() {
+                "c02" => cluster::c02(seed, get(&kv, "runs", 30), get(&kv, "nmax", 8), &mut tw),
+                "c03" => cluster::c03(seed, th, &mut tw),
+                "c04" => cluster::c04(seed, th, &mut tw),
+                "c05" => cluster::c05(seed, th, &mut tw),
+                _ => cluster::c18(seed, th, &mut tw),
+            };
+            tw.flush();
+            println!("{}", cov.json(&tw));
+            return;
+        }
+        "c01" => {
+            let st = c01::run(seed, flag(&kv, "thorough"), &mut tw);
+            tw.flush();
+            println!("{{\"events\":{},\"panics\":{},\"cov_groups\":{},\"cov_nontrivial\":{}}}", tw.events, tw.panics, st.groups, st.nontrivial);
+            return;
         }
         _ => {
             eprintln!("usage: fv <rnd|...> --out FILE --seed N ...");
